@@ -1160,13 +1160,36 @@ func eq(lhs, rhs reflect.Value) bool {
 		return ok && v1 == v2
 	}
 
-	// Arrays and maps are compared with a deep equal
+	// Arrays and maps are compared structurally, i.e. item by
+	// item. Note that reflect.DeepEqual is not suitable here
+	// because it compares Go types, not JSONata values: it
+	// distinguishes []string from []interface{} and int from
+	// float64 (the types returned by, e.g. $split and $count).
 	if jtypes.IsArray(lhs) && jtypes.IsArray(rhs) {
-		return reflect.DeepEqual(lhs.Interface(), rhs.Interface())
+		lhs, rhs = jtypes.Resolve(lhs), jtypes.Resolve(rhs)
+		if lhs.Len() != rhs.Len() {
+			return false
+		}
+		for i, N := 0, lhs.Len(); i < N; i++ {
+			if !eq(lhs.Index(i), rhs.Index(i)) {
+				return false
+			}
+		}
+		return true
 	}
 
 	if jtypes.IsMap(lhs) && jtypes.IsMap(rhs) {
-		return reflect.DeepEqual(lhs.Interface(), rhs.Interface())
+		lhs, rhs = jtypes.Resolve(lhs), jtypes.Resolve(rhs)
+		if lhs.Len() != rhs.Len() {
+			return false
+		}
+		for _, k := range lhs.MapKeys() {
+			v := rhs.MapIndex(k)
+			if !v.IsValid() || !eq(lhs.MapIndex(k), v) {
+				return false
+			}
+		}
+		return true
 	}
 
 	// Null is only equal to null. A null can be the null
@@ -1181,6 +1204,17 @@ func eq(lhs, rhs reflect.Value) bool {
 	// compared directly. Two functions with the same contents
 	// are not considered equal unless they're the same
 	// physical object in memory.
+
+	for lhs.Kind() == reflect.Interface && !lhs.IsNil() {
+		lhs = lhs.Elem()
+	}
+	for rhs.Kind() == reflect.Interface && !rhs.IsNil() {
+		rhs = rhs.Elem()
+	}
+
+	if lhs.Kind() == reflect.Ptr && rhs.Kind() == reflect.Ptr {
+		return lhs.Pointer() == rhs.Pointer()
+	}
 
 	return lhs == rhs
 }
